@@ -24,7 +24,7 @@
 (*   en0    Template(cache_enabled=...)                                    *)
 (*   inh    template it inherits from (0 = none); isbase = its page calls  *)
 (*          next.body() (it is only rendered through an inheriting one)    *)
-(*   page   [cached, key, pfx, args, items]   (the <%page> tag + the body) *)
+(*   page   [cached, key, pfx, args, parg, items] (the <%page> tag + body)  *)
 (*   secs   sequence of [name, kind, cached, key, pfx, args, buf, filt,    *)
 (*          items]; kind in def | ndef (nested def) | nblock | ablock      *)
 (*   items  what a body does after printing its own token: a sequence of   *)
@@ -32,8 +32,9 @@
 (*          ("V" = the context variable); how = "call" (same template),    *)
 (*          "ns" (def of template tm through a namespace), "inc" (include  *)
 (*          of template tm), "next" (next.body() of an inherited page)     *)
-(* key = "static" (the callable's name), "ctx" (cache_key="<pfx>${v}") or  *)
-(* "arg" (cache_key="<pfx>${x}", x the def's argument).                    *)
+(* key = "static" (the callable's name), "ctx" (cache_key="<pfx>${v}"),     *)
+(* "arg" (cache_key="<pfx>${x}", x the callable's argument), "argctx"      *)
+(* (both) or "mod" (a module-level name).                                  *)
 (* Values are tagged strings ("s:memory", "i:7", "o:dict") so that an int  *)
 (* and a string never get compared by TLC.                                 *)
 (* Output is a sequence of tokens <<name, n, ctx, arg, t>>: section `name`  *)
@@ -63,7 +64,8 @@ EXTENDS Naturals, Sequences, FiniteSets, TLC, CacheProgs
 Progs == ProgsDef
 CONSTANTS CtxVals,   \* values of the context variable v
           AsCoded,   \* set of deviation names the model follows the code in
-          Ops        \* which operations occur in histories
+          Ops,       \* which operations occur in histories
+          XVals      \* subset of BOOLEAN: whether cache.get/set/invalidate are called without / with explicit **kw
 VARIABLES pg,        \* which world (fixed by the initial state)
           store,     \* [ns -> [key -> entry]], only present keys in the domain
           runs,      \* ghost: [ns -> [key -> number of executions since the last invalidation of key]]
@@ -91,6 +93,7 @@ ToFn(ps) == [n \in {ps[i][1] : i \in DOMAIN ps} |->
                ps[CHOOSE i \in DOMAIN ps : ps[i][1] = n /\ \A i2 \in DOMAIN ps : ps[i2][1] = n => i2 <= i][2]]
 \* int(eval(...)) of a timeout written in a tag attribute
 TimeoutConv == ("s:7" :> "i:7") @@ ("s:34" :> "i:34") @@ ("s:3600" :> "i:3600") @@ ("s:7200" :> "i:7200") @@ ("s:86400" :> "i:86400")
+               @@ ("s:${60*60}" :> "i:3600")       \* an expression attribute: cache_timeout="${60*60}"
 Conv(f) == [n \in DOMAIN f |-> IF n = "timeout" /\ f[n] \in DOMAIN TimeoutConv THEN TimeoutConv[f[n]] ELSE f[n]]
 TArgs(t) == ToFn(W[t].targs)
 \* what the generated wrapper passes: page cache_* updated with the section's own, then timeout -> int
@@ -102,7 +105,12 @@ Expected(t, s) == LET b == Conv(ToFn(s.args)) @@ Conv(ToFn(W[t].page.args)) @@ T
 (* ---------------- keys, names, namespaces ---------------- *)
 DefName(s) == IF s.kind \in {"page", "def", "nblock"} THEN <<"render_", s.name>> ELSE <<"", s.name>>
 ArgVal(a, c) == IF a = "V" THEN c ELSE a
-KeyOf(s, c, a) == IF s.key = "static" THEN DefName(s) ELSE IF s.key = "ctx" THEN <<s.pfx, c>> ELSE <<s.pfx, a>>
+\* cache_key is evaluated in the scope of the section's wrapper: context variables ("ctx": <pfx>${v}), the
+\* callable's arguments ("arg": <pfx>${x}), both ("argctx": <pfx>${x}_${v}), module-level names ("mod": <pfx>${MK})
+KeyOf(s, c, a) == IF s.key = "static" THEN DefName(s) ELSE IF s.key = "ctx" THEN <<s.pfx, c>>
+                  ELSE IF s.key = "arg" THEN <<s.pfx, a>> ELSE IF s.key = "argctx" THEN <<s.pfx, a, c>> ELSE <<s.pfx, "m">>
+\* <%page args="x='P'"/>: the page body is a callable with a defaulted argument (parg = "P"), else parg = ""
+PageArg(t) == W[t].page.parg
 WordSym(x) == x \notin {"-", ".", "/", "~", "+", " "}
 Sanitise(u) == [i \in DOMAIN u |-> IF WordSym(u[i]) THEN u[i] ELSE "_"]
 Ns(t) == IF "ns-sanitised" \in AsCoded THEN Sanitise(W[t].uri) ELSE W[t].uri
@@ -132,7 +140,8 @@ CacheKw(t, rg, dn, kw, withCtx, fromInv) ==
   IN [kw    |-> IF withCtx /\ PassCtx THEN base @@ ("context" :> "CTX") ELSE base,
       rg    |-> IF freeze THEN (dn :> [kw |-> base, byInv |-> fromInv]) @@ rg ELSE rg,
       byInv |-> known /\ rg[dn].byInv]
-PlainKw(t) == TArgs(t)            \* no __M_defname: template args updated with the (empty) call args
+\* no __M_defname: template args updated with the call's own **kw (x: the call passes timeout=9999)
+PlainKw(t, x) == IF x THEN ("timeout" :> "i:9999") @@ TArgs(t) ELSE TArgs(t)
 
 (* ---------------- rendering ---------------- *)
 \* S = [st, rn, ex, rg, calls, served, out]: backend content and ghost runs (all namespaces), executions and
@@ -154,9 +163,9 @@ RunItems(t, c, items, i, S) ==
                 IF it.how = "call" THEN RunSec(t, c, it.sec, ArgVal(it.arg, c), S)
                 ELSE IF it.how = "ns" THEN RunSec(it.tm, c, it.sec, ArgVal(it.arg, c), S)
                 ELSE IF it.how = "inc"       \* the included template is rendered through its own inheritance chain
-                THEN LET ch == Chain(it.tm) IN [RunSec(Head(ch), c, 0, "", [S EXCEPT !.nx = Tail(ch)]) EXCEPT !.nx = S.nx]
+                THEN LET ch == Chain(it.tm) IN [RunSec(Head(ch), c, 0, PageArg(Head(ch)), [S EXCEPT !.nx = Tail(ch)]) EXCEPT !.nx = S.nx]
                 ELSE \* "next": ${next.body()} in the page of an inherited template
-                     [RunSec(Head(S.nx), c, 0, "", [S EXCEPT !.nx = Tail(@)]) EXCEPT !.nx = S.nx])
+                     [RunSec(Head(S.nx), c, 0, PageArg(Head(S.nx)), [S EXCEPT !.nx = Tail(@)]) EXCEPT !.nx = S.nx])
 RunSec(t, c, j, a, S) ==
   LET s == SecOf(t, j)
       n == Ns(t)
@@ -202,9 +211,21 @@ Render(t, c) ==
   /\ LET ch == Chain(t)
          S0 == [st |-> store, rn |-> runs, ex |-> execs, rg |-> regions, calls |-> <<>>, served |-> <<>>, out |-> <<>>,
                 nx |-> Tail(ch)]
-         S1 == RunSec(Head(ch), c, 0, "", S0)
+         S1 == RunSec(Head(ch), c, 0, PageArg(Head(ch)), S0)
      IN /\ store' = S1.st /\ runs' = S1.rn /\ execs' = S1.ex /\ regions' = S1.rg
         /\ last' = [op |-> "render", t |-> t, c |-> c, out |-> S1.out, calls |-> S1.calls, served |-> S1.served]
+  /\ UNCHANGED <<pg, enabled, nset>>
+\* template.get_def(name).render(x=a, ...): a DefTemplate runs the top-level def alone, with the parent's cache
+RenderDef(t, j, a, c) ==
+  /\ "renderdef" \in Ops
+  /\ W[t].secs[j].kind = "def"
+  /\ ~W[t].secs[j].buf      \* DefTemplate.render() drops what a buffered def RETURNS, cached or not: not a caching matter
+  /\ LET S0 == [st |-> store, rn |-> runs, ex |-> execs, rg |-> regions, calls |-> <<>>, served |-> <<>>, out |-> <<>>,
+                nx |-> <<>>]
+         S1 == RunSec(t, c, j, a, S0)
+     IN /\ store' = S1.st /\ runs' = S1.rn /\ execs' = S1.ex /\ regions' = S1.rg
+        /\ last' = [op |-> "renderdef", t |-> t, name |-> W[t].secs[j].name, arg |-> a, c |-> c, out |-> S1.out,
+                    calls |-> S1.calls, served |-> S1.served]
   /\ UNCHANGED <<pg, enabled, nset>>
 
 \* Cache.invalidate(key, __M_defname=dn): invalidate_body / invalidate_def / invalidate_closure
@@ -219,25 +240,26 @@ InvalidateBody(t) == "invbody" \in Ops /\ InvNamed("invbody", t, "body", <<"rend
 InvalidateDef(t, name) == "invdef" \in Ops /\ InvNamed("invdef", t, name, <<"render_", name>>, <<"render_", name>>)
 InvalidateClosure(t, name) == "invclosure" \in Ops /\ InvNamed("invclosure", t, name, <<"", name>>, <<"", name>>)
 \* Cache.invalidate(key), cache.set(key, value), cache.get(key): no __M_defname, no regions
-Invalidate(t, k) ==
+Invalidate(t, k, x) ==
   /\ "inv" \in Ops
   /\ store' = [store EXCEPT ![Ns(t)] = Without(@, k)] /\ runs' = [runs EXCEPT ![Ns(t)] = Without(@, k)]
-  /\ last' = [op |-> "inv", t |-> t, key |-> k, calls |-> <<[op |-> "inv", ns |-> Ns(t), key |-> k, kw |-> PlainKw(t)]>>]
+  /\ last' = [op |-> "inv", t |-> t, key |-> k, x |-> x, calls |-> <<[op |-> "inv", ns |-> Ns(t), key |-> k, kw |-> PlainKw(t, x)]>>]
   /\ UNCHANGED <<pg, regions, enabled, execs, nset>>
-Set(t, k) ==
+Set(t, k, x) ==
   /\ "set" \in Ops
   /\ LET v == <<Tok("set", nset + 1, "", "", 0)>>
      IN store' = [store EXCEPT ![Ns(t)] = (k :> [val |-> v, ref |-> v, owner |-> t, sec |-> 0, by |-> "set"]) @@ @]
   /\ nset' = nset + 1
-  /\ last' = [op |-> "set", t |-> t, key |-> k, n |-> nset + 1, calls |-> <<[op |-> "set", ns |-> Ns(t), key |-> k, kw |-> PlainKw(t)]>>]
+  /\ last' = [op |-> "set", t |-> t, key |-> k, x |-> x, n |-> nset + 1,
+               calls |-> <<[op |-> "set", ns |-> Ns(t), key |-> k, kw |-> PlainKw(t, x)]>>]
   /\ UNCHANGED <<pg, runs, regions, enabled, execs>>
-Get(t, k) ==
+Get(t, k, x) ==
   /\ "get" \in Ops
   /\ LET found == k \in DOMAIN store[Ns(t)]
-     IN last' = [op |-> "get", t |-> t, key |-> k, found |-> found,
+     IN last' = [op |-> "get", t |-> t, key |-> k, x |-> x, found |-> found,
                  res |-> IF found THEN store[Ns(t)][k].val ELSE <<>>,
                  owner |-> IF found THEN store[Ns(t)][k].owner ELSE t,
-                 calls |-> <<[op |-> "get", ns |-> Ns(t), key |-> k, kw |-> PlainKw(t)]>>]
+                 calls |-> <<[op |-> "get", ns |-> Ns(t), key |-> k, kw |-> PlainKw(t, x)]>>]
   /\ UNCHANGED <<pg, store, runs, regions, enabled, execs, nset>>
 ToggleEnabled(t) ==
   /\ "toggle" \in Ops
@@ -247,26 +269,29 @@ ToggleEnabled(t) ==
 
 \* names and keys the operations range over
 NamesOf(t, kinds) == {W[t].secs[j].name : j \in {i \in 1..NSec(t) : W[t].secs[i].kind \in kinds /\ W[t].secs[i].cached}}
-ArgVals == {"A", "B"} \cup CtxVals
+ArgVals == {"A", "B", "P"} \cup CtxVals
 KeysOf(t) == UNION {LET s == SecOf(t, j) IN
                       IF ~s.cached THEN {}
                       ELSE IF s.key = "static" THEN {DefName(s)}
                       ELSE IF s.key = "ctx" THEN {<<s.pfx, c>> : c \in CtxVals}
-                      ELSE {<<s.pfx, a>> : a \in ArgVals} : j \in 0..NSec(t)}
+                      ELSE IF s.key = "arg" THEN {<<s.pfx, a>> : a \in ArgVals}
+                      ELSE IF s.key = "argctx" THEN {<<s.pfx, a, c>> : a \in ArgVals, c \in CtxVals}
+                      ELSE {<<s.pfx, "m">>} : j \in 0..NSec(t)}
 DoRender == \E t \in T, c \in CtxVals : Render(t, c)
 DoInvBody == \E t \in T : W[t].page.cached /\ InvalidateBody(t)
 DoInvDef == \E t \in T : \E n \in NamesOf(t, {"def", "nblock"}) : InvalidateDef(t, n)
 DoInvClosure == \E t \in T : \E n \in NamesOf(t, {"ndef", "ablock"}) : InvalidateClosure(t, n)
-DoInvalidate == \E t \in T : \E k \in KeysOf(t) : Invalidate(t, k)
-DoSet == \E t \in T : \E k \in KeysOf(t) : Set(t, k)
-DoGet == \E t \in T : \E k \in KeysOf(t) : Get(t, k)
+DoRenderDef == \E t \in T : \E j \in 1..NSec(t), a \in {"A", "B"}, c \in CtxVals : RenderDef(t, j, a, c)
+DoInvalidate == \E t \in T : \E k \in KeysOf(t), x \in XVals : Invalidate(t, k, x)
+DoSet == \E t \in T : \E k \in KeysOf(t), x \in XVals : Set(t, k, x)
+DoGet == \E t \in T : \E k \in KeysOf(t), x \in XVals : Get(t, k, x)
 DoToggle == \E t \in T : ToggleEnabled(t)
-Next == DoRender \/ DoInvBody \/ DoInvDef \/ DoInvClosure \/ DoInvalidate \/ DoSet \/ DoGet \/ DoToggle
+Next == DoRender \/ DoRenderDef \/ DoInvBody \/ DoInvDef \/ DoInvClosure \/ DoInvalidate \/ DoSet \/ DoGet \/ DoToggle
 Spec == Init /\ [][Next]_vars
 
 (* ---------------- the property (C17) ---------------- *)
 Range(f) == {f[i] : i \in DOMAIN f}
-IsRender == last.op = "render"
+IsRender == last.op \in {"render", "renderdef"}
 \* a body is executed only when the backend has no value for its key: between two invalidations of a
 \* key at most one execution creates it
 AtMostOncePerKey == \A n \in NsSet : \A k \in DOMAIN runs[n] : runs[n][k] <= 1
